@@ -19,7 +19,7 @@ from vf.check import Ob
 
 PROPERTY = 'C03'
 _M = 'boltons.cacheutils.LRI.'
-TARGETS = [_M + m for m in ('__setitem__', '__getitem__', '__delitem__', 'pop', 'popitem', 'clear', 'setdefault', 'update', '__eq__', 'get',
+TARGETS = [_M + m for m in ('__setitem__', '__getitem__', '__delitem__', 'pop', 'popitem', 'clear', 'setdefault', 'update', '__eq__', 'get', 'copy',
                             '_get_link_and_move_to_front_of_ll', '_set_key_and_add_to_front_of_ll', '_set_key_and_evict_last_in_ll',
                             '_remove_from_ll')] + ['boltons.cacheutils.LRU.__getitem__']
 BOUNDS = {
@@ -29,11 +29,11 @@ BOUNDS = {
 }
 ASSUMPTIONS = ['single C-level dict operations are atomic (GIL)', 'pre-emption matters only between statements that touch shared state (yield points there)',
                'keys interact only through ==/hash']
-OUT_OF_CLAIM = ['more than 2 threads / more operations per thread / more context switches than the bound', 'copy(), iteration, repr concurrent with writers (not in the locked set)',
+OUT_OF_CLAIM = ['more than 2 threads / more operations per thread / more context switches than the bound', 'iteration, repr concurrent with writers (not in the locked set)',
                 'the three counters', 'free-threaded builds', 'pre-emption inside a statement between two shared accesses (thorough tier of the design, not built)']
 STUBS = ['threading.RLock -> vf.coro.ModelLock inside the transformed classes']
 
-OPS = ['setitem', 'getitem', 'delitem', 'pop', 'popitem', 'clear', 'setdefault', 'update', 'eq', 'get']
+OPS = ['setitem', 'getitem', 'delitem', 'pop', 'popitem', 'clear', 'setdefault', 'update', 'eq', 'get', 'copy']
 _CACHE = {}
 
 
@@ -64,6 +64,8 @@ def co_op(c, op, k, v):
         return c.update([(k, v)])
     if op == 'eq':
         return c.__eq__({k: v})
+    if op == 'copy':
+        return c.copy()
     return c.get(k, 'dflt')
 
 
@@ -88,6 +90,8 @@ def real_op(c, op, k, v):
         return c.update([(k, v)])
     if op == 'eq':
         return c == {k: v}
+    if op == 'copy':
+        return c.copy()
     return c.get(k, 'dflt')
 
 
@@ -159,6 +163,15 @@ def outcome_conc(Co, ms, init, threads, first, switches, record=None, onmiss=0):
 
 
 def _norm(v):
+    if isinstance(v, dict) and hasattr(v, 'max_size'):
+        # a cache returned by copy(): its contents and its eviction order (observed on the copy itself)
+        import inspect
+        contents = tuple(sorted((getattr(k, 'i', k), repr(x)) for k, x in dict.items(v)))
+        if inspect.isgeneratorfunction(type(v).__setitem__):
+            order = probe_order(v, lambda cc, k, x: coro.drive(cc.__setitem__(k, x)), v.max_size)
+        else:
+            order = probe_order(v, lambda cc, k, x: cc.__setitem__(k, x), v.max_size)
+        return ('cache', contents, order)
     if isinstance(v, tuple) and len(v) == 2 and isinstance(v[0], K):
         return ('item', v[0].i, v[1])
     if isinstance(v, K):
